@@ -27,8 +27,8 @@ PLANS = {
                 thorough=[("SearchTrace", "sweep", ["-k", "600"], 11, 30000), ("SearchTrace", "ucigo", [], 3, 1500), ("SearchTrace", "collide", [], 2, 15000)]),
     "C07": dict(quick=[("SearchTrace", "pv", ["-depth", "8"], 12, 1300), ("SearchTrace", "sweep", ["-k", "40"], 2, 1500), ("SearchTrace", "collide", [], 2, 1500)],
                 thorough=[("SearchTrace", "pv", ["-depth", "9"], 12, 14000), ("SearchTrace", "sweep", ["-k", "200"], 2, 15000), ("SearchTrace", "collide", [], 2, 15000)]),
-    "C08": dict(quick=[("ReproTrace", "games", ["-plies", "20"], 11, 700), ("SearchTrace", "sweep", ["-k", "120"], 3, 2000), ("SearchTrace", "limits", [], 2, 1500)],
-                thorough=[("ReproTrace", "games", ["-plies", "60"], 11, 8000), ("SearchTrace", "sweep", ["-k", "1500"], 3, 25000), ("SearchTrace", "limits", [], 2, 20000)]),
+    "C08": dict(quick=[("ReproTrace", "games", ["-plies", "20"], 10, 700), ("ReproTrace", "ucirepro", [], 2, 60), ("SearchTrace", "sweep", ["-k", "120"], 2, 2000), ("SearchTrace", "limits", [], 2, 1500)],
+                thorough=[("ReproTrace", "games", ["-plies", "60"], 10, 8000), ("ReproTrace", "ucirepro", [], 2, 600), ("SearchTrace", "sweep", ["-k", "1500"], 2, 25000), ("SearchTrace", "limits", [], 2, 20000)]),
 }
 
 
